@@ -26,6 +26,10 @@ pub fn tokens_to_line(tokens: &Tokens) -> String {
     for t in tokens {
         if t.0.is_empty() {
             result.push_str(&t.1);
+        } else if t.0 == "\\" {
+            // a word that starts with an escaped `$` or `|`
+            result.push('\\');
+            result.push_str(&t.1);
         } else {
             let s = tools::wrap_sep_string(&t.0, &t.1);
             result.push_str(&s);
